@@ -133,7 +133,7 @@ pub enum Origin {
     Phantom,
 }
 
-#[derive(Clone, Copy, Debug, PartialEq, Eq, Hash, Serialize)]
+#[derive(Clone, Copy, Debug, PartialEq, Eq, Hash, PartialOrd, Ord, Serialize)]
 pub enum Phase {
     Run,
     Settle,
